@@ -456,6 +456,27 @@ def special_models():
     gb.node.append(helper.make_node("If", ["c"], ["r"], name="if_keep", then_branch=tb, else_branch=eb))
     gb.output.append(helper.make_tensor_value_info("r", TP.FLOAT, ["R"]))
     out.append(("kept_identity_in_branch_over_captured_value", helper.make_model(gb, opset_imports=[helper.make_opsetid("", OPSET)], ir_version=10)))
+    # a control-flow body that returns one value at two output positions (main graph and inside a function body)
+    for where in ("main", "function"):
+        tb2 = onnx.GraphProto(name="then_twice")
+        tb2.node.append(helper.make_node("Neg", ["x" if where == "main" else "dx"], ["tw"], name="tw_neg"))
+        tb2.output.extend([_vi("tw", TP.FLOAT, None), _vi("tw", TP.FLOAT, None)])
+        eb2 = onnx.GraphProto(name="else_two")
+        eb2.node.append(helper.make_node("Relu", ["x" if where == "main" else "dx"], ["e_a"], name="e_relu"))
+        eb2.node.append(helper.make_node("Abs", ["x" if where == "main" else "dx"], ["e_b"], name="e_abs"))
+        eb2.output.extend([_vi("e_a", TP.FLOAT, None), _vi("e_b", TP.FLOAT, None)])
+        gd = onnx.GraphProto(name="main")
+        gd.input.extend([_vi("x"), _vi("c", TP.BOOL, ())])
+        fns = []
+        if where == "main":
+            gd.node.append(helper.make_node("If", ["c"], ["p", "q"], name="if_twice", then_branch=tb2, else_branch=eb2))
+        else:
+            inner_if = helper.make_node("If", ["dc"], ["dp", "dq"], name="d_if_twice", then_branch=tb2, else_branch=eb2)
+            fns.append(helper.make_function("local", "Dup", ["dx", "dc"], ["dp", "dq"], [inner_if], [helper.make_opsetid("", OPSET)]))
+            gd.node.append(helper.make_node("Dup", ["x", "c"], ["p", "q"], name="call_dup", domain="local"))
+        gd.node.append(helper.make_node("Sub", ["p", "q"], ["pq"], name="sub_pq"))
+        gd.output.append(_vi("pq", TP.FLOAT, (2,)))
+        out.append((f"body_returns_one_value_twice[{where}]", helper.make_model(gd, opset_imports=[helper.make_opsetid("", OPSET)] + ([helper.make_opsetid("local", 1)] if fns else []), ir_version=10, functions=fns)))
     # only a branch body is out of order (the main graph is sorted)
     gu = onnx.GraphProto(name="main")
     gu.input.extend([_vi("x"), _vi("c", TP.BOOL, ())])
